@@ -175,6 +175,9 @@ def finish(prop, tier, level, results, t0, *, functions, bounds, assumptions, ru
            trusted_base=(), extra=None, twins_expected=()):
     """Write evidence, print verdict lines, return exit code."""
     seed = int(os.environ.get("VERIF_SEED", "0") or 0)
+    if os.environ.get("VERIF_DUMP"):
+        with open(os.environ["VERIF_DUMP"], "w") as f:
+            json.dump(results, f, default=str)
     known = load_known(prop)
     known_ids = {k["id"]: k for k in known}
     viol = [r for r in results if r["status"] == "violated" and not r.get("twin")]
